@@ -5,7 +5,7 @@ name=$1; pid=$2; V=${3:-/verif}
 wt=/tmp/tryseed_$name
 git -C /repo worktree remove --force $wt 2>/dev/null
 git -C /repo worktree add -q --detach $wt HEAD || exit 3
-( cd $wt && git apply /verif/seeded/$name/patch.diff ) || { echo "patch does not apply"; git -C /repo worktree remove --force $wt; exit 3; }
+( cd $wt && ( git apply /verif/seeded/$name/patch.diff || ( git apply --3way /verif/seeded/$name/patch.diff && git reset -q ) ) ) || { echo "patch does not apply"; git -C /repo worktree remove --force $wt; exit 3; }
 ( cd $V && PYCOIN_REPO=$wt timeout 3000 ./check $pid --tier quick 2>&1 | grep -v '^KNOWN-FINDING' | tail -${TAIL:-4} )
 for f in $V/replays/*.json; do [ -f "$f" ] && python3 -c "
 import json,sys; r=json.load(open('$f')); print('  replay:', str(r.get('what'))[:110], '|', str(r.get('input'))[:90])"; done 2>/dev/null | head -5
